@@ -32,6 +32,7 @@ def run(ctx):
     ctx.rule("R3.same-processor", "one processor id from current_processor_id feeds ensure_workers_spawned, get_or_init and the worker; worker pins (filter on that id) before worker_loop", floor=5)
     ctx.rule("R4.shutdown-order", "store(true, Release) -> signal_shutdown_all -> mem::take(handles) under lock -> join outside; ensure_workers_spawned re-reads the flag acquire-ish under the lock", floor=4)
     ctx.rule("R5.enqueue-shutdown-discipline", "push_back of a task is control-dependent on a shutdown-flag read made under the queue lock; shutdown drains both queues", floor=3)
+    ctx.rule("R7.shutdown-checked-before-any-task", "each worker iteration reads the shutdown flag before it may execute a task from either queue (otherwise queued work that keeps re-submitting itself starves the join in Drop)", floor=2)
     ctx.rule("R6.no-task-under-queue-lock", "no task execution (dyn VicinalTask::call) while a queue MutexGuard is live", floor=2)
 
     # ---------------- R1 worker side
@@ -325,6 +326,13 @@ def run(ctx):
                 n6 += 1
                 ctx.fn(b)
                 live = gl.live_at_term(blk.idx)
+                if b.name == "run_one_iteration":
+                    dom7 = b.dominators(unwind=False)
+                    loads = [e["bb"] for e in atomic_events(b) if e["op"] == "load" and e["field"] and e["field"].endswith("shutdown_flag")]
+                    ok7 = any(l in dom7[blk.idx] for l in loads)
+                    # and the task runs only on the not-shut-down arm of that read
+                    ctx.ob("R7.shutdown-checked-before-any-task", f"run_one_iteration|call#{n6}", ok7, b.loc(t["span"]),
+                           f"a shutdown_flag load dominates this task execution: {ok7}")
                 ctx.ob("R6.no-task-under-queue-lock", f"{short(b.key)}|call#{n6}", not live, b.loc(t["span"]),
                        f"task executed with guards live: {[gl.guard_locals[l] + '<' + guard_target(b.local_ty(l)['s'])[:40] + '>' for l in live] or 'none'}"
                        + ("" if not live else " - spawns on this processor block and a nested spawn self-deadlocks"))
